@@ -40,6 +40,14 @@ CLAIMED = {
          "Static decision that Rflush is produced only after WaitTag(OldTag), that WaitTag blocks on exactly the channel StartTag registered and returns at once for idle tags, that the channel is closed only by ClearTag which runs only after cs.handle returned (no handler can start a goroutine, so all backend calls of a request are over by then), that a flush of the request's own tag bypasses the wait, that nothing reachable from the flush handler has side effects, and that WaitTag blocks with no lock held. Right level: these are ordering and reachability facts of the code; the property's quantifier over interleavings is discharged by them.",
          "Mutual flush cycles among several in-flight flushes (liveness over histories) are not decided. Trusts Go channel close/receive semantics.",
          "DESIGN.md section 4 C14"),
+ "C15": ("shape rule for the panic barrier, lock-release pairing and defer-discipline on every exit of every function reachable from a handler (may-held lock sets, effect summaries over the call graph), ownership typestate/reference balance on error exits, success-only binding, no-masking rule on error variables, who-may-write rules for server-wide state",
+         "Static decision that a backend panic is recovered into EFAULT behind which all handlers run, that no lock taken on behalf of a request can stay held after an error return or a recovered panic (released on every exit; by defer wherever the region can reach the backend or a callback), that Files and references obtained during a failed request are released on its error exits and lookups by defer, that the fid table is changed only on success while Tclunk/Tremove unbind regardless, that the reply's errno is the backend's own error on every exit where that error is known non-nil, and that error paths write no server-wide state. Right level: containment is a property of every error/unwinding path of the CFG, which no injected-fault test enumerates completely.",
+         "What a backend that corrupts its own state does afterwards is outside the property. Trusts Go defer/recover semantics.",
+         "DESIGN.md section 4 C15"),
+ "C16": ("lock-order graph from interprocedural may-held lock sets at every acquisition (acyclicity and conformance to the documented hierarchy), reviewed table for same-class nesting and childMu re-entry, blocking-operation rule, guarded-by lockset table checked at every field access with must-held sets, atomic-only fields, lost-release rule",
+         "Static decision for every schedule that the lock-order graph is acyclic and follows renameMu > opMu > fidMu/openMu > childMu > leaf locks, that same-class nesting happens only at reviewed sites that cannot involve the same instance, that renameMu is never re-acquired, that nothing blocks while a lock is held, that every lock taken is released on every exit, and that every access to the shared session state (fid and tag tables, path-tree maps, allocator state, shutdown flag, atomic fields) holds the lock the source assigns to it. Right level: deadlocks and data races are exactly what lock-order and lockset analyses decide for all interleavings at once; the race detector only sees the schedules a test happens to run.",
+         "Liveness under a real scheduler (fairness, wake-ups) and the isolation-of-results clause are not decided beyond the necessary condition that no other cross-connection mutable state exists. Lock instances are compared structurally; childMu is judged at class granularity. Assumes the property's workload of at most one outstanding request per fid for pendingXattr and the open state.",
+         "DESIGN.md section 4 C16, Appendix D"),
 }
 
 NOT_YET = "check not built yet (work in progress; DESIGN.md section 4 describes the planned static rules)"
